@@ -209,3 +209,10 @@ pub fn scorer_probe(entries: &[(u32, u32, i32)], queries: &[(u32, u32)]) -> Vec<
         })
         .collect()
 }
+
+impl Dictionary {
+    /// Number of character categories.
+    pub fn verif_num_categories(&self) -> usize {
+        self.char_prop().num_categories()
+    }
+}
